@@ -200,7 +200,7 @@ def check_adversarial_allocs():
                 if vt == 'Element': el = curve.mk_element('ark', X, Y, Z, T); gen = 'ark_curve::element::projective::Element'
                 else: el = Agg('ark_curve::element::affine::AffinePoint', [Agg('Affine', [X, Y])]); gen = 'ark_curve::element::affine::AffinePoint'
                 clo = Agg('{closure@harness}', [])
-                I.models['fns'] = [(r'^<impl FnOnce.* as core::ops::FnOnce<\(\)>>::call_once$', lambda I_, fr, fn, a: ok(el)), (r'^ark_curve::encoding::<impl[^>]*>::vartime_compress_to_field$', lambda I_, fr, fn, a: FE.sym('Fq', 'enc'))] + I.models['fns']
+                I.models['fns'] = [(r'^<impl FnOnce.* as core::ops::FnOnce<\(\)>>::call_once$', r1cs.harness_closure(el)), (r'^ark_curve::encoding::<impl[^>]*>::vartime_compress_to_field$', lambda I_, fr, fn, a: FE.sym('Fq', 'enc'))] + I.models['fns']
                 r = I.call_item(it, [CSRef(), clo, Enum('ark_r1cs_std::alloc::AllocationMode', 'Witness', [])], generics={'T': gen})
                 if isinstance(r, Enum) and r.variant == 'Ok': return ok(_inner_of(I, items_, r.fields[0]))
                 return r
